@@ -262,3 +262,79 @@ def c20(run):
 @prop("C03")
 def c03(run):
     return L.check_c03(run)
+
+
+FAULT_CODES = """arith-asg arith-if arith-elseif arith-forinit arith-forcond arith-forstep arith-return arith-arg arith-conc div-zero
+div-zero-if cmp-asg cmp-if cmp-return logic-asg logic-if cond-notbool cond-notbool-for not-nonbool not-nonbool-if not-nonbool-return
+undef-var undef-var-if undef-var-return undef-var-arg undef-var-range undef-func undef-func-if undef-method undef-method-asg undef-three
+undef-field undef-field-if undef-field-set undef-obj-set nil-deref nil-deref-if nil-deref-set nil-deref-2 nil-deref-2-if nil-deref-call
+nil-method index-read index-read-if index-read-return index-write index-empty index-var index-neg badkey-kind badkey-kind-set
+mapkey-undef index-str index-nonmap argcount argcount-more argkind argkind-meth store-kind store-kind-bool store-value store-scalar
+panic-func panic-func-if panic-func-arg panic-func-return panic-method panic-conc nil-func break-outside continue-outside
+unbounded-for unbounded-nested range-noniter range-int""".split()
+
+
+@prop("C09")
+def c09(run):
+    """Fault containment: the Exec trace specification with rule bodies that contain a real fault of every class at
+    every syntactic position (the end of the execution is logged as failed just before the faulty statement): the call
+    must return (no panic, crash or hang), with an error, the other rules per the model's policy, and a following
+    call on the same engine must be unaffected."""
+    rng = random.Random(run.seed)
+    quick = run.tier == "quick"
+    allm = ["Execute", "ExecuteWithStopTagDirect", "ExecuteConcurrent", "ExecuteMixModel", "ExecuteMixModelWithStopTagDirect",
+            "ExecuteInverseMixModel", "ExecuteNSortMConcurrent", "ExecuteNConcurrentMSort", "ExecuteNConcurrentMConcurrent", "ExecuteDAGModel"]
+    selm = ["ExecuteSelectedRules", "ExecuteSelectedRulesWithControl", "ExecuteSelectedRulesWithControlAsGivenSortedName",
+            "ExecuteSelectedRulesWithControlAndStopTag", "ExecuteSelectedRulesWithControlAndStopTagAsGivenSortedName",
+            "ExecuteSelectedRulesConcurrent", "ExecuteSelectedRulesMixModel", "ExecuteSelectedRulesInverseMixModel",
+            "ExecuteSelectedNSortMConcurrent", "ExecuteSelectedNConcurrentMSort", "ExecuteSelectedNConcurrentMConcurrent"]
+    X.model_check(run, "mc_fault", names="Names3", sal="Sal2", methods=["Execute", "ExecuteConcurrent", "ExecuteMixModel", "ExecuteInverseMixModel"])
+    gen = [("g_f1", dict(names="Names3", sal="Sal2", methods=allm[:6], beh="BehF")),
+           ("g_f2", dict(names="Names3", sal="Sal1", methods=allm[6:9], nm="NMq", beh="BehF")),
+           ("g_f3", dict(names="Names2", sal="Sal1", methods=["ExecuteDAGModel"], dags="Dags22", beh="BehF")),
+           ("g_f4", dict(names="Names3", sal="Sal1", methods=selm[:8], maxnames=2, beh="BehF")),
+           ("g_f5", dict(names="Names2", sal="Sal1", methods=selm[8:], maxnames=2, nm="NMq", beh="BehF"))]
+    recs = [r for r in X.generate(run, gen) if any(b == "fault" for _, b in r["beh"])]
+    run.cov["generated_scenarios"] = len(recs)
+    # every fault code meets every method (quick: a rotating subset; thorough: several rounds of the full product)
+    by_method = {}
+    for r in recs:
+        by_method.setdefault(r["method"], []).append(r)
+    sessions = []
+    sid = 0
+    rounds = 1 if quick else 6
+    for m, rs in sorted(by_method.items()):
+        for rd in range(rounds):
+            for code in FAULT_CODES:
+                r = rng.choice(rs)
+                for tgt in (("engine", "pool") if not quick else (rng.choice(["engine", "pool"]),)):
+                    if tgt == "pool" and not r["rules"]:
+                        continue
+                    beh = dict((n, b) for n, b in r["beh"])
+                    decl = [{"name": ru["name"], "sal": ru["sal"], "tpl": ("F:" + code) if beh[ru["name"]] == "fault" else "A"}
+                            for ru in r["rules"]]
+                    call = {"method": r["method"], "via": "direct", "b": r["b"], "names": r["names"], "n": r["n"], "m": r["m"],
+                            "dag": r["dag"], "beh": beh, "tagset": []}
+                    healthy = dict(call, beh={n: rng.choice(["ok", "ret"]) for n in beh})
+                    sid += 1
+                    sessions.append({"id": sid, "target": tgt, "gated": r["method"] not in X.SEQ_ONLY and rng.random() < 0.7,
+                                     "burst": rng.random() < 0.3, "rules": decl, "calls": [call, healthy, dict(call)], "fault": code})
+    if quick and len(sessions) > 1800:
+        sessions = rng.sample(sessions, 1800)
+    ns, nrej = X.run_and_validate(run, sessions, "faults", keys=True, timeouts_reproduce=True)
+    run.cov["evaluations"] = ns
+    run.cov["fault_classes_x_positions"] = len(FAULT_CODES)
+    run.cov["distinct_nontrivial"] = len({(s["fault"], s["calls"][0]["method"], s["target"]) for s in sessions})
+    if not run.violations:
+        X.self_test(run)
+    run.assumptions += ["a faulty rule logs its end as failed immediately before the faulty statement; if the fault did not fail the rule, "
+                        "the return event contradicts the specification", "injected functions terminate",
+                        "a watchdog timeout counts only if the same session hangs again alone with ten times the budget"]
+    return run.finish("model_checking",
+                      "cells = %d fault class x syntactic position snippets (ill-typed arithmetic / comparison / logic, non-boolean condition, "
+                      "! on non-boolean, unknown variable / function / method / field, nil dereference one and two levels, index out of range "
+                      "read and write, bad key kind, wrong argument count or kind, panicking and nil injected function, break / continue outside "
+                      "a loop, unbounded for; in assignment rhs / lhs, if, else-if, for init / condition / step, forRange operand, return, call "
+                      "argument, conc child, map key) x 21 execute methods on engine and pool x TLC-enumerated rule sets with the faulty rule at "
+                      "every plan position; three calls per session (faulty, healthy, faulty) on one engine / pool; distinct = (fault, method, "
+                      "target)" % len(FAULT_CODES))
